@@ -5,6 +5,7 @@ mod common;
 mod order;
 mod problems;
 mod dense;
+mod matrix;
 
 fn main() {
     let args: Vec<String> = std::env::args().collect();
@@ -16,6 +17,7 @@ fn main() {
     match args[1].as_str() {
         "order-probe" => order::run(rest),
         "dense-check" => dense::run(rest),
+        "xmatrix" => matrix::run(rest),
         other => {
             eprintln!("unknown subcommand {other}");
             std::process::exit(2);
